@@ -24,6 +24,19 @@ type hop struct {
 	arg  uint64
 }
 
+// C06t: the same histories with frequent ReleaseAll (Unexport / Close + re-export)
+func init() {
+	Props["C06t"] = &Prop{
+		Imports: "From Verif Require Import Model.Handles Corr.C05 Corr.C06t.",
+		Gen: func(r *Rand, idx int, tier string) Case {
+			c := genC05x(r, idx, 12)
+			c.Kind = "release-all-heavy"
+			return c
+		},
+		NonTrivial: func(c *Case) bool { return c.Tags["release-all"] > 0 },
+	}
+}
+
 func runC05(max int, ops []hop, kind string, idx int) Case {
 	fm := absnfs.VerifNewHandleMap(max)
 	var coqOps, coqObs, txt []string
@@ -46,6 +59,7 @@ func runC05(max int, ops []hop, kind string, idx int) Case {
 		case 2:
 			fm.ReleaseAll()
 			coqOps = append(coqOps, "ReleaseAll")
+			tags["release-all"]++
 		}
 		tab := fm.VerifTable()
 		if o.kind == 0 && len(tab) < prevCount+1 && len(tab) <= prevCount {
@@ -79,7 +93,9 @@ func effMax(max int) int {
 	return max
 }
 
-func genC05(r *Rand, idx int, tier string) Case {
+func genC05(r *Rand, idx int, tier string) Case { return genC05x(r, idx, 2) }
+
+func genC05x(r *Rand, idx int, relAllPct int) Case {
 	max := PickInt(r, 1, 1, 2, 2, 3, 5, 10, 11, 25, 0, -3)
 	npaths := 1 + r.Intn(40)
 	lenMul := 1 + r.Intn(6)
@@ -114,7 +130,7 @@ func genC05(r *Rand, idx int, tier string) Case {
 			}
 			ops = append(ops, hop{1, h})
 			fm.Release(h)
-		case x < relPct+2:
+		case x < relPct+relAllPct:
 			ops = append(ops, hop{2, 0})
 			fm.ReleaseAll()
 		default:
